@@ -179,17 +179,28 @@ def worker(ctx, job):
     bpath = os.path.join(cache, ref.bucket_rel(KEY))
     written = [entry_of(KEY, SHORT), entry_of(KEY, LONG), entry_of(FOREIGN, FOR), entry_of(KEY, APPEND), entry_of(KEY, BIG)]
     appends_list = [0, 1] if quick else [0, 1, 2]
+    last_ins = {"S": SHORT, "L": LONG, "B": BIG}.get(hist[-1])
+    last_start = max([s_ for (s_, e_, r_) in ref.split_bucket(data) if e_ > s_] or [0])
     for name, klass, damaged, region in damages(data, quick):
         res["states"] += 1
-        for nappend in appends_list:
-            if nappend and klass in ("bitflip",) and res["states"] % 4:
+        modes = list(appends_list)
+        # "same": the record the bucket ends with is inserted once more, byte for byte (an identical re-put): it must become
+        # effective whatever the damage did to the copy that is already there. All states of the small classes; cuts and
+        # flips where they touch the separator in front of that last record.
+        if last_ins is not None and (klass not in ("cut-tail", "cut-middle", "bitflip") or (region is not None and region[0] <= last_start and region[1] >= last_start - 1)):
+            modes += ["same-sync", "same-async"]
+        for nappend in modes:
+            same = nappend in ("same-sync", "same-async") and nappend
+            if same:
+                nappend = 1
+            if nappend and not same and klass in ("bitflip",) and res["states"] % 4:
                 continue  # appends after flips: a quarter of the flip states (the flipped record is dead either way)
             with open(bpath, "wb") as fh:
                 fh.write(damaged)
             cur = damaged
             for i in range(nappend):
-                op, srv = (("index_insert", srvs["sync"]) if (i + res["states"]) % 2 == 0 else ("index_insert_async", srvs["astd"]))
-                rep = srv.call({"op": op, "cache": cache, "key": KEY, "opts": opts_of(APPEND)})
+                op, srv = (("index_insert", srvs["sync"]) if (same == "same-sync" or (not same and (i + res["states"]) % 2 == 0)) else ("index_insert_async", srvs["astd"]))
+                rep = srv.call({"op": op, "cache": cache, "key": KEY, "opts": opts_of(last_ins if same else APPEND)})
                 if "ok" not in rep:
                     V.violation(res, "index-damage:%s:append-%s" % (klass, classify(rep)), "append after damage %s failed: %r" % (name, rep),
                                 {"engine": "seqx", "history": hist, "damage": name, "appends": nappend})
@@ -201,9 +212,9 @@ def worker(ctx, job):
                 c = (ref.effective(rs, KEY), ref.effective(rs, FOREIGN), rs)
                 if not any(_same(c[0], x[0]) and _same(c[1], x[1]) for x in cands):
                     cands.append(c)
-            replay = {"engine": "seqx", "history": hist, "writer": job["writer"], "damage": name, "appends": nappend, "bucket_hex": cur.hex() if len(cur) < 3000 else None}
+            replay = {"engine": "seqx", "history": hist, "writer": job["writer"], "damage": name, "appends": ("re-insert of the last record (%s)" % same) if same else nappend, "bucket_hex": cur.hex() if len(cur) < 3000 else None}
             res["evals"] += 1
-            res["distinct"].add(V.h(hist, name, nappend))
+            res["distinct"].add(V.h(hist, name, nappend, same))
             # layer 2: containment, judged on the reference decoding itself
             recs = cands[0][2]
             if region is not None and nappend == 0:
@@ -229,7 +240,7 @@ def worker(ctx, job):
             if len(cands) > 1:
                 V.outcome(res, "cr-ambiguous-line")
             # layer 1: the library equals the reference on every entry point
-            if nappend and exp is None or (nappend and not _same(exp, entry_of(KEY, APPEND))):
+            if nappend and exp is None or (nappend and not _same(exp, entry_of(KEY, last_ins if same else APPEND))):
                 V.violation(res, "index-damage:%s:append-not-effective" % klass, "record appended after damage %s is not the effective one" % name, replay)
             for fl, op in lookups():
                 if quick and fl == "tok" and op != "metadata":
